@@ -166,6 +166,9 @@ THEOREMS = [
     'C09.eval_dimension_hom', 'C09.eval_dimension_hom_ast', 'C09.same_dim_ratio_invariant', 'C09.dim_analysis_sound',
     # reset_units with named working units: every chosen unit is 1
     'C09.reset_named_units_are_one', 'C09.reset_named_units_parse_one', 'C09.parse_name', 'C09.table_names_valid',
+    'C09.reset_refuses_five', 'C09.reset_over_determined_ignores_energy',
+    # set_literal = numeral value times parsed factor
+    'C09.set_literal_value_unit', 'C09.set_literal_eq_set_in_units',
     # generated tables: numericalunits table facts, LAMMPS style tables
     'C09.unit_table_ok', 'C09.style_table_dims', 'C09.style_table_names', 'C09.style_entry_scaling',
 ]
